@@ -45,6 +45,10 @@ def gen_ensemble(rng):
 
     n = int(rng.choice([1, 2, 3, 5, 8, 12, 17, 24]))
     nc = int(rng.choice([1, 2, 3, 5]))
+    if rng.random() < 0.12:
+        # large ensembles (conformer searches return hundreds): sizes around powers of two, where batching would show
+        nc = int(rng.choice([31, 33, 63, 64, 65, 100, 127, 129, 200, 257]))
+        n = min(n, 8)
     els = [str(rng.choice(ELEMENTS)) for _ in range(n)]
     base = gen_coords(rng, n)
     confs = []
@@ -379,6 +383,8 @@ def one_case(spec, ctx, case, gb, ml, CartesianGeometry, Structure, state):
     mol, ens, els = gen_ensemble(rng)
     coords = np.asarray(ens.coords, dtype=np.float64)          # the values the objects hold
     nc, n = coords.shape[:2]
+    if nc > 16:
+        ctx.count("descriptor.large-ensembles")
     radii = np.array([a.vdw_radius for a in ens.atoms], dtype=np.float64)
     weights = np.asarray(ens.weights, dtype=np.float64)
     charges = np.asarray(ens.atomic_charges, dtype=np.float64)
